@@ -114,7 +114,20 @@ def simulate(wd, module, cfg, num, depth, seed, timeout=600, env=None):
     meta = os.path.join(wd, 'metasim_%d' % int(time.time() * 1000))
     args = ['-simulate', 'file=%s/tr,num=%d' % (simdir, num), '-depth', str(depth), '-workers', '1',
             '-seed', str(seed), '-metadir', meta, '-noGenerateSpecTE', '-deadlock', '-config', cfg, module]
-    r = _run(wd, args, timeout, env)
+    # a simulation worker that dies (observed: StackOverflowError in a TLC worker thread for one particular seed) leaves
+    # TLC waiting forever: bounded attempts, each with a derived seed
+    r = None
+    for attempt in range(3):
+        try:
+            r = _run(wd, args, min(timeout, 240) if attempt < 2 else timeout, env)
+            if 'StackOverflowError' not in r.out:
+                break
+        except TLCError:
+            if attempt == 2:
+                raise
+        shutil.rmtree(simdir, ignore_errors=True)
+        os.makedirs(simdir)
+        args[args.index('-seed') + 1] = str(seed + 7919 * (attempt + 1))
     if r.errors and not any('deadlock' in x.lower() for x in r.errors):
         raise TLCError('simulate failed: %s\n%s' % (r.errors[:3], r.out[-2000:]))
     behaviours = []
